@@ -11,28 +11,35 @@ int main(void)
 		int n = drv_split(line, tok, 8);
 		if (n == 2 && strcmp(tok[0], "hexify") == 0) {
 			size_t len; uint8_t * in = drv_unhex(tok[1], &len, 0);
-			char * out = malloc(2 * len + 1);
+			char * out = drv_outbuf(2 * len + 1);	/* exact size, starts as junk */
+			/* same buffers, flipped contents first (result discarded): a caller re-using its buffers */
+			drv_flip(in, len); hexify(in, out, len); drv_flip(in, len); drv_junk(out, 2 * len + 1);
 			hexify(in, out, len);
+			drv_scribble_free(in, len);		/* the input is the caller's again */
 			printf("ok "); drv_puthex((uint8_t *)out, 2 * len + 1); printf("\n");
-			free(in); free(out);
+			free(out);
 		} else if (n == 3 && strcmp(tok[0], "unhexify") == 0) {
 			size_t slen; uint8_t * s = drv_unhex(tok[1], &slen, 1); /* + NUL */
 			size_t len = (size_t)strtoull(tok[2], NULL, 10);
-			uint8_t * out = malloc(len ? len : 1);
-			int rc = unhexify((char *)s, out, len);
+			uint8_t * out = drv_outbuf(len);
+			int rc;
+			drv_flip(s, slen); (void)unhexify((char *)s, out, len); drv_flip(s, slen); drv_junk(out, len);
+			rc = unhexify((char *)s, out, len);
+			drv_scribble_free(s, slen + 1);
 			if (rc == 0) { printf("ok "); drv_puthex(out, len); printf("\n"); }
 			else printf("ok none\n");
-			free(s); free(out);
+			free(out);
 		} else if (n == 3 && strcmp(tok[0], "unhexraw") == 0) {
 			/* the input in a block of exactly its size, WITHOUT a terminator: unhexify's
 			 * contract is "2*len characters from in", so it may not look beyond them */
 			size_t slen; uint8_t * s = drv_unhex(tok[1], &slen, 0);
 			size_t len = (size_t)strtoull(tok[2], NULL, 10);
-			uint8_t * out = malloc(len ? len : 1);
+			uint8_t * out = drv_outbuf(len);
 			int rc = unhexify((char *)s, out, len);
+			drv_scribble_free(s, slen);
 			if (rc == 0) { printf("ok "); drv_puthex(out, len); printf("\n"); }
 			else printf("ok none\n");
-			free(s); free(out);
+			free(out);
 		} else
 			printf("bad-case\n");
 	}
